@@ -11,6 +11,7 @@ import (
 	"os"
 	"sync"
 	"sync/atomic"
+	"time"
 
 	"github.com/attestantio/dirk/rules"
 	standardrules "github.com/attestantio/dirk/rules/standard"
@@ -24,11 +25,13 @@ import (
 	standardlister "github.com/attestantio/dirk/services/lister/standard"
 	"github.com/attestantio/dirk/services/locker"
 	syncmaplocker "github.com/attestantio/dirk/services/locker/syncmap"
+	"github.com/attestantio/dirk/services/peers"
 	staticpeers "github.com/attestantio/dirk/services/peers/static"
 	"github.com/attestantio/dirk/services/process"
 	standardprocess "github.com/attestantio/dirk/services/process/standard"
 	"github.com/attestantio/dirk/services/ruler"
 	goruler "github.com/attestantio/dirk/services/ruler/golang"
+	"github.com/attestantio/dirk/services/sender"
 	mocksender "github.com/attestantio/dirk/services/sender/mock"
 	"github.com/attestantio/dirk/services/signer"
 	standardsigner "github.com/attestantio/dirk/services/signer/standard"
@@ -250,6 +253,12 @@ type SignerOpts struct {
 	Full bool
 	// DistWallets are created as distributed wallets.
 	DistWallets []string
+	// DKG configuration of the process service (Full rigs only); zero values give a single-instance process.
+	ProcessID  uint64
+	PeersMap   map[uint64]string
+	Sender     sender.Service
+	PeersWrap  func(peers.Service) peers.Service
+	GenTimeout time.Duration
 	// Populate is called after the wallets were created and before the account cache is built.
 	Populate func(ctx context.Context, store e2wtypes.Store, enc e2wtypes.Encryptor) error
 }
@@ -276,6 +285,8 @@ type SignerRig struct {
 	AcctMgr     accountmanager.Service
 	WalletMgr   walletmanager.Service
 	Process     process.Service
+	RealProcess *standardprocess.Service
+	Peers       peers.Service
 	nacct       int
 	rulesCancel context.CancelFunc
 }
@@ -406,23 +417,45 @@ func (r *SignerRig) openRules() error {
 	if err != nil {
 		return err
 	}
-	peers, err := staticpeers.New(r.Ctx, staticpeers.WithPeers(map[uint64]string{1: "signer-test01:8881"}))
+	peersMap := r.opts.PeersMap
+	if peersMap == nil {
+		peersMap = map[uint64]string{1: "signer-test01:8881"}
+	}
+	realPeers, err := staticpeers.New(r.Ctx, staticpeers.WithPeers(peersMap))
 	if err != nil {
 		return err
 	}
-	r.Process, err = standardprocess.New(r.Ctx,
+	r.Peers = realPeers
+	if r.opts.PeersWrap != nil {
+		r.Peers = r.opts.PeersWrap(r.Peers)
+	}
+	pid := r.opts.ProcessID
+	if pid == 0 {
+		pid = 1
+	}
+	var snd sender.Service = mocksender.New(pid)
+	if r.opts.Sender != nil {
+		snd = r.opts.Sender
+	}
+	timeout := r.opts.GenTimeout
+	if timeout == 0 {
+		timeout = time.Hour
+	}
+	r.RealProcess, err = standardprocess.New(r.Ctx,
 		standardprocess.WithChecker(r.Checker),
 		standardprocess.WithUnlocker(r.Unlocker),
-		standardprocess.WithSender(mocksender.New(1)),
+		standardprocess.WithSender(snd),
 		standardprocess.WithFetcher(r.Fetcher),
 		standardprocess.WithEncryptor(PlainEncryptor{}),
-		standardprocess.WithPeers(peers),
-		standardprocess.WithID(1),
+		standardprocess.WithPeers(r.Peers),
+		standardprocess.WithID(pid),
 		standardprocess.WithStores([]e2wtypes.Store{r.WStore}),
-		standardprocess.WithGenerationPassphrase([]byte("pass")))
+		standardprocess.WithGenerationPassphrase([]byte("pass")),
+		standardprocess.WithGenerationTimeout(timeout))
 	if err != nil {
 		return err
 	}
+	r.Process = r.RealProcess
 	r.AcctMgr, err = standardaccountmanager.New(r.Ctx,
 		standardaccountmanager.WithUnlocker(r.Unlocker),
 		standardaccountmanager.WithChecker(r.Checker),
